@@ -287,10 +287,7 @@ func (b *basicCommonValidator) Validate(data interface{}) (res *Result) {
 			continue
 		}
 
-		expectedValue := reflect.ValueOf(data)
-		if expectedValue.IsValid() &&
-			expectedValue.Type().ConvertibleTo(actualType) &&
-			reflect.DeepEqual(expectedValue.Convert(actualType).Interface(), enumValue) {
+		if reflect.DeepEqual(data, enumValue) || equalAfterConversion(data, enumValue) {
 			return nil
 		}
 	}
